@@ -25,12 +25,24 @@ mkdir -p "$VER/seeded/$NAME"
 cp "$WT/.applied.diff" "$VER/seeded/$NAME/patch.diff"; cp "$SRC/demo.py" "$VER/seeded/$NAME/demo.py"
 VERD=""
 cd "$VER"
+HEADSHA=$(git -C /repo rev-parse --short HEAD)
+mkdir -p /var/tmp/verif_headruns
+whats() { # stdin: check output; prints one line per violation: what (+ witness)
+  grep "^VIOLATION" | sed 's/.*replay=\([^ ]*\).*/\1/' | while read f; do /venv/bin/python -c "
+import json,sys
+d=json.load(open('$f')); fi=d.get('failing_input') or {}
+print(((d.get('what') or '')+' @ '+str(fi.get('witness') or ''))[:400].replace('|','!'))" 2>/dev/null; done | sort -u; }
 for id in "$@"; do
-  out=$(VERIF_REPO="$WT" ./check "$id" --tier "${TIER:-quick}" 2>&1 | grep -v "^WARNING"); 
-  line=$(echo "$out" | grep -E "^\[$id\]"); nv=$(echo "$out" | grep -c "^VIOLATION"); first=$(echo "$out" | grep "^VIOLATION" | head -1)
+  HF="/var/tmp/verif_headruns/${HEADSHA}_${id}_${TIER:-quick}.txt"
+  if [ ! -f "$HF" ]; then ./check "$id" --tier "${TIER:-quick}" 2>&1 | whats > "$HF.tmp"; mv "$HF.tmp" "$HF"; fi
+  out=$(VERIF_REPO="$WT" ./check "$id" --tier "${TIER:-quick}" 2>&1 | grep -v "^WARNING");
+  line=$(echo "$out" | grep -E "^\[$id\]")
+  echo "$out" | whats > "$WT/.whats"
+  new=$(grep -vxF -f "$HF" "$WT/.whats" 2>/dev/null || true); [ -s "$HF" ] || new=$(cat "$WT/.whats")
+  nv=$(echo "$new" | grep -c . ); first=$(echo "$new" | head -1)
   echo "SEED $NAME: $line"
-  what=""
-  if [ "$nv" -gt 0 ]; then f=$(echo "$first" | sed 's/.*replay=\([^ ]*\).*/\1/'); what=$(/venv/bin/python -c "import json,sys; d=json.load(open('$f')); print((d.get('what') or '')[:160].replace('\"',''))" 2>/dev/null); echo "SEED $NAME:   first violation: $what"; fi
+  echo "SEED $NAME:   violations not reported on unmodified HEAD ($HEADSHA): $nv; first: $first"
+  what="$first"
   VERD="$VERD$id|$nv|$line|$what
 "
 done
